@@ -120,10 +120,11 @@ Fixpoint max_slope (v x : list Q) : Q :=
 
 (* condition-aware tolerance of the Q correspondence: 1e-12 relative to the size of the grid
    abscissae plus the steepest slope of the interpolant (an error of k ulp in a cumulative value
-   moves the result by slope * k ulp; u and the cumulative values are of order 1) *)
+   moves the result by slope * k ulp; u and the cumulative values are of order 1).  Qred only
+   changes the representation of the fraction (Qred_correct), it keeps the comparisons fast. *)
 Definition relq : Q := 1 # 1000000000000.
 Definition gen_tol (pofx x : list Q) : Q :=
-  let '(xvals, pcum) := gen_tables false pofx x in relq * (qmaxabs x + max_slope xvals pcum).
+  let '(xvals, pcum) := gen_tables false pofx x in Qred (relq * (qmaxabs x + max_slope xvals pcum)).
 
 Fixpoint all2 {A B} (f : A -> B -> bool) (l1 : list A) (l2 : list B) : bool :=
   match l1, l2 with
